@@ -141,7 +141,7 @@ def check(run):
                        "script lines whose run reaches shift_and_check_new_stream_header or an error/panic outcome (some call shows num_bytes_written set, "
                        "or the final code is not Success), plus sweep sub-cases counted by the drivers"
                        % (len(contl), len(sweeps) // 256))
-    evals, nbad = 0, 0
+    evals, nbad, corr = 0, 0, []
     finals, reached = {}, set()
     for prof in profiles:
         # ---- sweeps
@@ -190,14 +190,14 @@ def check(run):
                                what="stream/finish panicked, left its buffers, broke the result-code contract or made no progress: " + s)
             elif canon(a) != m:
                 nbad += 1
-                if nbad <= 5:
-                    run.report("correspondence", write_replay_case("script", l, {"profile": prof}), {"impl": a[:3000], "model": m[:3000], "spec": s},
-                               broken="correspondence model/Concat.v vs src/concat/mod.rs: " + first_diff(canon(a), m), found_input=False)
+                if len(corr) < 4:
+                    corr.append(dict(kind="correspondence", case=write_replay_case("script", l, {"profile": prof}), observed={"impl": a[:3000], "model": m[:3000], "spec": s},
+                                     broken="correspondence model/Concat.v vs src/concat/mod.rs: " + first_diff(canon(a), m)))
             elif s.startswith("INV"):
                 nbad += 1
-                if nbad <= 5:
-                    run.report("proof-obligation", write_replay_case("script", l, {"profile": prof}), {"impl": a[:3000], "model": m[:3000], "spec": s},
-                               broken="state invariant Inv (hypothesis of C16_total) violated by a reachable state: " + s, found_input=False)
+                if len(corr) < 4:
+                    corr.append(dict(kind="proof-obligation", case=write_replay_case("script", l, {"profile": prof}), observed={"impl": a[:3000], "model": m[:3000], "spec": s},
+                                     broken="state invariant Inv (hypothesis of C16_total) violated by a reachable state: " + s))
         run.note("profile %s: %d sweep lines (%d cases), %d scripts, %d problems" % (prof, len(sweeps), len(sweeps) * 256 * len(contl), len(lines), nbad))
     run.cov["evaluations"] = evals
     run.cov["distinct_nontrivial"] = len(reached)
@@ -206,6 +206,10 @@ def check(run):
     run.cov["exhaustive"] = True
     run.cov["exhaustive_note"] = "all 65 536 two-byte prefixes x the continuation set x contexts enumerated completely (implementation and model, compared by hash; spec applied by the model driver to identical answers)"
     run.cov["samples"] = [sweeps[17], lines[0][:400], lines[len(lines) // 2][:400], lines[-1][:400]]
+    # a broken correspondence / invariant is reported on its own only when the search found no failing input
+    if corr and not any(v[2] for v in run.violations):
+        for c in corr:
+            run.report(c["kind"], c["case"], c["observed"], broken=c["broken"], found_input=False)
     if not ok_proof and not run.violations:
         run.report("proof-obligation", {"stage": "proof"}, {"broken": broken}, broken="; ".join(b[:400] for b in broken), found_input=False)
 
